@@ -42,6 +42,13 @@ WRAPPERS = {
                     "end) end) end)",
     "retry-forever": "while true do pcall(function() BODY end) end",
     "handler-loops": "xpcall(function() error('x') end, function(e) BODY end)",
+    # the protected function runs into the limit AND the message handler
+    # would loop as well (it must not be run at all after the limit)
+    "xpcall-both-loop": "xpcall(function() BODY end, function(e) while true "
+                        "do end end)",
+    "xpcall-both-nested": "pcall(function() xpcall(function() BODY end, "
+                          "function(e) local i = 0; repeat i = i + 1 until "
+                          "false end) end)",
     "index-meta": "local o = setmetatable({}, {__index = function() BODY end})"
                   "\n local _ = o.x",
     "call-meta": "local o = setmetatable({}, {__call = function() BODY end})"
